@@ -17,6 +17,9 @@ import weave
 
 DEFAULT_CHECKS = ['--bounds-check', '--pointer-check', '--div-by-zero-check']
 JOBS = int(os.environ.get('VERIF_JOBS', '16'))
+# plan timeouts were measured on this machine; scale them so that a slower or busier machine does not turn a
+# proof into an 'undecided' (a timeout is never a violation, but it would make the check unusable)
+TIMEOUT_SCALE = float(os.environ.get('VERIF_TIMEOUT_SCALE', '2.5'))
 
 def log(*a):
     print(*a, file=sys.stderr, flush=True)
@@ -51,6 +54,7 @@ def load_groups(all_units=False):
             gg.setdefault('level', 'proof')
             gg.setdefault('backend', 'sat')
             gg.setdefault('timeout', 300)
+            gg['timeout'] = int(gg['timeout'] * TIMEOUT_SCALE)
             gg.setdefault('mem_gb', 12)
             gg.setdefault('defs', [])
             gg.setdefault('replace', [])
